@@ -58,6 +58,8 @@ pub enum Error {
     CommaRequired(usize),
     #[error("incomplete digit group before {0}")]
     IncompleteGroup(usize),
+    #[error("no digits in decimal")]
+    NoDigits,
     #[error("unexpressible decimal {0}")]
     InvalidDecimal(#[from] rust_decimal::Error),
 }
@@ -129,6 +131,7 @@ impl FromStr for PrettyDecimal {
         let mut scale: Option<u32> = None;
         let mut prefix_len = 0;
         let mut sign = 1;
+        let mut has_digit = false;
         let aligned_comma = |offset, cp, pos| match (cp, pos) {
             (None, _) if pos > offset && pos <= 3 + offset => true,
             _ if cp == Some(pos) => true,
@@ -161,11 +164,15 @@ impl FromStr for PrettyDecimal {
                         .and_then(|m| m.checked_add(digit))
                         .ok_or(rust_decimal::Error::ExceedsMaximumPossibleValue)?;
                     scale = scale.map(|x| x + 1);
+                    has_digit = true;
                 }
                 _ => {
                     return Err(Error::UnexpectedChar(try_find_char(s, i, c), i));
                 }
             }
+        }
+        if !has_digit {
+            return Err(Error::NoDigits);
         }
         if comma_pos.is_some_and(|cp| cp != s.len()) {
             return Err(Error::IncompleteGroup(s.len()));
